@@ -100,6 +100,17 @@ def gen_script(rng):
             steps.append(["merge", "side", rng.choice(AUTHORS), date(), "Merge branch side " + rng.choice(SUBJECTS)])
             branch_open = True
             continue
+        if r < 0.24 and not branch_open and steps:
+            # the fixes of a branch picked onto main one by one, then the branch merged: the merge commit's tree is the
+            # tree of its first parent (a history that a path-limited `git log` simplifies away)
+            same = content(4)
+            steps.append(["branch", "side"])
+            steps.append(["commit", rng.choice(AUTHORS), date(), "fix on the branch " + rng.choice(SUBJECTS), [["write", "pick_%d.txt" % k, same]]])
+            steps.append(["checkout", "main"])
+            steps.append(["commit", rng.choice(AUTHORS), date(), "picked: " + rng.choice(SUBJECTS), [["write", "pick_%d.txt" % k, same]]])
+            steps.append(["merge", "side", rng.choice(AUTHORS), date(), "Merge branch side (already picked)"])
+            branch_open = True
+            continue
         ops = commit()
         if ops:
             steps.append(["commit", rng.choice(AUTHORS), date(), rng.choice(SUBJECTS), ops])
